@@ -318,7 +318,16 @@ def _stall_accepts(rig):
     rig.cw.net.on_accept = on_accept
 
 
-def run_deviation(hist, chooser, burst=2, stall=False) -> dict:
+def _stall_server(rig):
+    """the server socket's send buffer is full: sends to the server block until the environment resumes it"""
+    from ..world import EnvEvent
+    w = rig.cw.client.network.server_connection._writer
+    proto = w.transport.get_protocol()
+    proto.pause_writing()
+    return lambda: rig.world.post(EnvEvent('resume', 'resume:server', proto.resume_writing, chan=None, holdable=False))
+
+
+def run_deviation(hist, chooser, burst=2, stall=False, srvstall=False) -> dict:
     """the last ``burst`` events of the history happen at once (no quiescence in between) and the explorer's
     schedule deviations order their deliveries, the sends they trigger and the handlers"""
     rig = Rig(chooser=chooser)
@@ -330,6 +339,7 @@ def run_deviation(hist, chooser, burst=2, stall=False) -> dict:
         before = rig.snapshot()
         if stall:
             _stall_accepts(rig)
+        resume_server = _stall_server(rig) if srvstall else None
         orig = rig.world.run_default_until_idle
         rig.world.run_default_until_idle = lambda: None        # inject the burst without running the loop
         try:
@@ -338,6 +348,8 @@ def run_deviation(hist, chooser, burst=2, stall=False) -> dict:
                     rig.apply(h)
         finally:
             rig.world.run_default_until_idle = orig
+        if resume_server is not None:
+            resume_server()         # the buffer drains after the burst was delivered (or wherever the explorer puts it)
         rig.world.deviations = True
         rig.world.run(until=lambda: not rig.world.loop.has_ready() and not rig.world.releasable())
         rig.world.deviations = False
@@ -364,6 +376,22 @@ BURSTS = [
     [('potential', ('p1', 'p2')), ('level', 'p1', 1), ('root', 'p1', 'R'), ('level', 'p2', 0)],
     [('incoming', 'p2'), ('incoming', 'p3'), ('reset',), ('incoming', 'p1')],
     [('potential', ('p1',)), ('root', 'p1', 'R'), ('level', 'p1', 1), ('level', 'p1', 0)],
+    # the attempt to another proposed parent is still pending when the first candidate completes and is lost
+    [('potential', ('p1', 'p9')), ('level', 'p1', 1), ('root', 'p1', 'R'), ('disconnect', 'p1')],
+    [('potential', ('p9', 'p1')), ('root', 'p1', 'R'), ('level', 'p1', 1), ('disconnect', 'p1')],
+    [('incoming', 'p2'), ('potential', ('p1', 'p9')), ('level', 'p1', 1), ('root', 'p1', 'R'), ('disconnect', 'p1')],
+    [('potential', ('p1', 'p9')), ('level', 'p1', 1), ('root', 'p1', 'R'), ('level', 'p1', 4)],
+]
+
+
+# the send to the server blocks while the second event of the burst is handled
+SRV_STALL = [
+    [('incoming', 'p2'), ('potential', ('p1',)), ('level', 'p1', 1), ('root', 'p1', 'R'), ('disconnect', 'p1')],
+    [('incoming', 'p2'), ('potential', ('p1',)), ('level', 'p1', 1), ('root', 'p1', 'R'), ('level', 'p1', 5)],
+    [('incoming', 'p2'), ('potential', ('p1',)), ('level', 'p1', 1), ('root', 'p1', 'R'), ('root', 'p1', 'Q')],
+    [('incoming', 'p2'), ('potential', ('p1',)), ('root', 'p1', 'R'), ('level', 'p1', 1), ('level', 'p1', 0)],
+    [('potential', ('p1',)), ('level', 'p1', 1), ('root', 'p1', 'R'), ('incoming', 'p2'), ('disconnect', 'p1')],
+    [('incoming', 'p2'), ('potential', ('p1',)), ('level', 'p1', 1), ('root', 'p1', 'R'), ('level', 'p1', 5), ('disconnect', 'p1')],
 ]
 
 
@@ -391,6 +419,10 @@ def scenarios(tier: str):
             out.append({'kind': 'dev', 'hist': [list(e) for e in b], 'burst': 2, 'stall': True})
         if tier != 'quick':
             out.append({'kind': 'dev', 'hist': [list(e) for e in b], 'burst': 3})
+    for b in SRV_STALL:
+        out.append({'kind': 'dev', 'hist': [list(e) for e in b], 'burst': 2, 'srvstall': True})
+        if tier != 'quick':
+            out.append({'kind': 'dev', 'hist': [list(e) for e in b], 'burst': 3, 'srvstall': True})
     return out
 
 
@@ -432,7 +464,8 @@ def run_scenario(params: dict, tier: str) -> dict:
                 'transitions': res.transitions, 'outcomes': [f's{hash(hist)}:{o}' for o in res.outcomes],
                 'capped': False, 'samples': res.samples[:1] or [[str(hist)]]}
     hist = tuple(_t(e) for e in params['hist'])
-    res = explore(lambda ch: run_deviation(hist, ch, burst=params.get('burst', 2), stall=params.get('stall', False)),
+    res = explore(lambda ch: run_deviation(hist, ch, burst=params.get('burst', 2), stall=params.get('stall', False),
+                                           srvstall=params.get('srvstall', False)),
                   bound=1 if tier == 'quick' else 2, max_exec=40000)
     return {'executions': res.executions, 'violations': res.violations, 'states': res.states,
             'transitions': res.transitions, 'outcomes': list(res.outcomes), 'capped': res.capped,
